@@ -125,7 +125,7 @@ func TestVerifC02(t *testing.T) {
 		return
 	}
 	defer s.Close()
-	nWorlds := c.Share(c.Pick(90, 3000))
+	nWorlds := c.Share(c.Pick(90, 1500))
 	for n := 0; n < nWorlds; n++ {
 		if c.Past(n) || c.Stop() {
 			break
@@ -146,6 +146,7 @@ func TestVerifC02(t *testing.T) {
 		att := world.AddAttacks(g, r, []string{attacker, sameIP})
 		c.Count("forgeries_planted", int64(att.Forgeries))
 		s.SetHandler(wk.Handler(g.World))
+		s.ResetLog() // the byte log is only needed per world; keeping it would grow without bound
 		// L1: crawl with the honest-caller contract, random order
 		cr := &crawler{c: c, budget: 300, visited: map[string]bool{}}
 		var starts []string
